@@ -170,6 +170,13 @@ def main(argv):
             pre_infra.append(("gen/symkern.py cannot extract the kernels' expressions from the current headers "
                               "(does not compile with the symbolic scalar, branches on a scalar value, reads an "
                               "uninitialised scalar, throws or crashes)", out[-3000:]))
+    if pid == "C16":
+        # coq/gen/RoundGen_*.v (owner: C16): the compiled kernels' expressions reified for the generic rounding bound
+        rc, out, _ = pipeline.sh([sys.executable, os.path.join(VERIF, "gen", "symround.py")], timeout=900)
+        if rc != 0:
+            pre_infra.append(("gen/symround.py cannot reify the kernels' expressions from the current headers (does not compile "
+                              "with the symbolic scalar - e.g. a value routed through float -, a divisor that is not an "
+                              "integer constant, a scalar comparison, an uninitialised scalar, an exception or a crash)", out[-3000:]))
     if os.path.exists(os.path.join(pipeline.COQ, f"Properties_{pid}_O.v")):
         # coq/gen/OpsGen_*.v (owners: C03 C04 C06 C07): whole public operations run over the symbolic scalar type
         rc, out, _ = pipeline.sh([sys.executable, os.path.join(VERIF, "gen", "symops.py")], timeout=900)
